@@ -10,7 +10,8 @@ Oracle   size attribute present and equal to the bytes written (also 0).  Every 
          floor(mtime) (file dates) or lies in the command's [start, end] window (hash / creation dates); its offset
          equals the zone's offset at that instant, taken from libc (time.localtime(ts).tm_gmtoff) and cross-checked
          with zoneinfo for IANA names (disagreement => case discarded and counted).  The manifest's file name
-         carries a UTC time inside the window.
+         carries a UTC time inside the window.  In a drawn share of cases the first file is then altered (other size,
+         other mtime) and sealed again: the exit-11 generation's record must state the new size and mtime.
 """
 import datetime
 import os
@@ -35,7 +36,7 @@ ASSUMPTIONS = [
     "libc's tz database is the authority for the offset in force at an instant",
 ]
 BUDGET = {"quick": (300, 4), "thorough": (200000, 16)}
-REQUIRED = ["now_dst/file_std", "now_std/file_dst", "now_dst/file_dst", "now_std/file_std", "size0", "fixed_offset", "iana", "big_file", "near_switch", "within_hour_after_switch", "now_in_repeated_hour", "flatten_other_zone", "second_generation_other_zone"]
+REQUIRED = ["now_dst/file_std", "now_std/file_dst", "now_dst/file_dst", "now_std/file_std", "size0", "fixed_offset", "iana", "big_file", "near_switch", "within_hour_after_switch", "now_in_repeated_hour", "flatten_other_zone", "second_generation_other_zone", "altered_file_generation"]
 
 IANA = ["Europe/Berlin", "America/New_York", "America/Los_Angeles", "Australia/Sydney", "Pacific/Auckland", "America/Sao_Paulo",
         "Asia/Kolkata", "Asia/Kathmandu", "Pacific/Kiritimati", "Etc/GMT+12", "Europe/London", "Africa/Cairo", "America/St_Johns",
@@ -101,6 +102,7 @@ def _scn(draw):
             "flatten_tz": draw(st.sampled_from([None, None, "UTC", "Europe/Berlin", "America/Los_Angeles", "Asia/Kolkata", "Australia/Sydney", "<-0330>3:30"])),
             # a second generation right afterwards under another zone (its local time may read *earlier* than the first
             # generation's, as after the end of daylight saving or on a machine in another zone)
+            "alter": draw(st.sampled_from([None, None, {"grow": 0, "dt": -86400 * 200}, {"grow": 7, "dt": 3600 * 24 * 91}, {"grow": -1, "dt": 1}])),
             "second_tz": draw(st.sampled_from([None, None, "<-02>2", "<+01>-1", "Pacific/Pago_Pago", "Pacific/Kiritimati", "America/St_Johns", "UTC"]))}
 
 
@@ -359,6 +361,32 @@ def run_case(scn, ctx):
             require(m is not None, "name", "manifest name %r" % mp, res)
             ts = datetime.datetime.strptime(m.group(1), "%Y-%m-%d_%H%M%S").replace(tzinfo=datetime.timezone.utc).timestamp()
             require(int(t0) <= ts <= t1, "name-utc", "file name time %s is not the UTC time of the run [%s, %s] (TZ=%s)" % (m.group(1), t0, t1, tz), res)
+            if scn.get("alter"):
+                # a run that ends with exit 11: the record of the altered file describes the file as it is now
+                f = scn["files"][0]
+                rel = "R/" + ("sub/" if scn["sub"] else "") + f["name"]
+                newsize = f["size"] + scn["alter"]["grow"]
+                if newsize < 0 or (newsize == 0 and f["size"] == 0):
+                    newsize = f["size"] + 1
+                dt_ = scn["alter"]["dt"]
+                if not (315532800 <= int(mt[rel]) + dt_ <= 2145916800):
+                    dt_ = -dt_
+                newt = float(int(mt[rel]) + dt_) + f["frac"]
+                w.put(rel, ["5a", newsize], mtime=newt)
+                a0 = time.time()
+                res = w.create("R", scn["formats"])
+                a1 = time.time()
+                require(res.exc is None and res.exit_code == 11, "create", "generation after altering %r: %s" % (rel, res.brief()), res)
+                d3 = w.read_history("R")[-1][2]
+                r3 = [r for r in d3["records"] if r["kind"] == "file" and "R/" + r["path"] == rel]
+                require(len(r3) == 1, "record", "no record for the altered %r" % rel, res)
+                require(r3[0]["size"] == str(newsize), "size", "altered %r: size attribute %r, file has %d bytes" % (rel, r3[0]["size"], newsize), res)
+                check_date(r3[0]["lastmod"], "lastmodificationdate of the altered %r" % rel, None, None, exact=float(int(newt // 1)))
+                require(any(e["action"] == "failed" for e in r3[0]["entries"]), "record", "altered file's record has no failed entry", res)
+                for e in r3[0]["entries"]:
+                    check_date(e["hashdate"], "hashdate of the altered %r" % rel, a0 - 0.001, a1)
+                check_date(d3["creatorinfo"].get("creationdate"), "creationdate of the failing generation", int(a0), a1)
+                ctx.event("altered_file_generation")
         finally:
             if old is None:
                 os.environ.pop("TZ", None)
